@@ -29,7 +29,7 @@ CLAIMED = {
  "C09": ("Non-re-entrancy and lock order (H > HS > HM > SL) are preconditions of every lock operation and are proved at every call site under contract; nothing blocking (time.Sleep) is called with a lock held; loops and recursion under contract carry decreases clauses.",
          "Termination of user hooks, the OS and regexp is assumed; loops without a decreases clause are listed in the evidence."),
  "C10": ("With async on, an accepted write is proved visible (pending and cached) at return; delete removes the pending entry and the file; Close/flushAllAndCommit post-conditions; the flusher closure is proved to run until the context is cancelled and to flush when due; the flusher is started on every path that enables async.",
-         "The real-time half (reaches disk once the timeout elapses) is liveness: not decidable by contracts. objectMap.flush and flushAll are proved (each pending object is written and removed, or kept when its write failed); flushDB (loop over all collections, used by Close) is an assumed contract."),
+         "The real-time half (reaches disk once the timeout elapses) is liveness: not decidable by contracts. objectMap.flush, objectStore.flush, flushAll and flushDB are proved (each pending object is written and removed, or kept when its write failed)."),
  "C11": ("objIndex.control, Schema.control and uuidsFromDir are proved: Control succeeds iff the indexed identifiers and the uuid-shaped file names agree and every field index is ordered and holds exactly the indexed ids.",
          "DB.Control is proved (every loaded collection is checked); Repair is proved only for safety, lock discipline, 'object files are not modified', 'pending writes are flushed first' and 'a successful Repair commits' - that the repaired index agrees with the files is NOT proved; os.ReadDir assumed."),
  "C12": ("The DB-level contracts mention only abstract views and are proved with the configuration (cache, compression, async, extension, lower-case names, indexed or not) as free symbolic inputs: one specification for the indexed and the full-scan search including error classes, Exist sees pending writes.",
